@@ -265,6 +265,10 @@ def run_lib(case):
             args_src.append("(%d)" % ints[ii] if ints[ii] < 0 else str(ints[ii]))
             ii += 1
     src = 'import "%s";\n' % case.get("import_as", "math.facto")
+    if case.get("user_ints"):
+        # the user's own compile-time ints, named like the library's parameters and locals
+        for nm_, v_ in case["user_ints"]:
+            src += "int %s = %d;\n" % (nm_, v_)
     for i, nm in enumerate(inputs):
         src += 'Signal %s = ("%s", 1);\n' % (nm, types[i])
     src += 'Signal res = %s(%s) | "signal-heart";\n' % (fn, ", ".join(args_src))
@@ -370,8 +374,12 @@ def gen_cases(tier, seed):
                     ints.append(sub.randint(0, 30))
             if fn in ("clamp", "between") and ints[0] > ints[1] and sub.random() < 0.8:
                 ints = [ints[1], ints[0]]
-            cases.append(_mk("lib_" + fn, sub, kind="lib", fn=fn, ints=ints, ntuples=ntup,
-                             import_as=sub.choice(["math.facto", "lib/math.facto", "math"])))
+            user_ints = None
+            if r % 2 == 1:
+                names_ = sub.sample(["x", "a", "b", "t", "value", "n", "result", "low", "high", "pos", "k", "s"], k=5)
+                user_ints = [(nm_, sub.randint(2, 12)) for nm_ in names_]
+            cases.append(_mk("lib_" + fn + ("_user_ints" if user_ints else ""), sub, kind="lib", fn=fn, ints=ints, ntuples=ntup,
+                             user_ints=user_ints, import_as=sub.choice(["math.facto", "lib/math.facto", "math"])))
     for fn in ["abs", "clamp", "div_floor"]:
         sub = random.Random(rng.randrange(1 << 60))
         kinds = LIB[fn][0]
